@@ -42,6 +42,11 @@ CHECKS = {
             "Fault enumeration: every catalogue class is injected at every applicable position of a fixed 2-channel spec (exhaustive part) and at generated positions of thousands of generated specs; acceptance or a foreign exception type is a violation with signature C20/<fault_variant>/<entry point>/<outcome>.",
             "Trusted: the fault injectors produce genuinely inconsistent specs (pairs that can cancel are discarded by construction); the shapefactor-width class is a recorded known finding.",
             "DESIGN.md#c20"),
+    "C17": ("fault_enumeration",
+            "Hypothesis-generated patch-set documents (internal-word names, mixed-type value tuples, injected duplicates, stateful RFC 6902 operation lists) + per-case exhaustive single-leaf corruption of the verified workspace; oracles: accept iff distinct, exact lookup, digest key-order invariance / corruption sensitivity, independent RFC 6902 applier",
+            "Fault enumeration: for every generated verified workspace every single-leaf corruption (number +-1 ulp/+1, string edit, element removed/duplicated/swapped, key renamed) is enumerated and must change the digest and fail verify(); document-level properties are searched with Hypothesis.",
+            "Trusted: vlib/jsonpatch_ref.py (RFC 6902) and hashlib; 1 and 1.0 are the same value-tuple entry.",
+            "DESIGN.md#c17"),
 }
 
 NOT_YET = "check not built yet in this session (work in progress; the design in DESIGN.md section 5 applies)"
